@@ -49,6 +49,7 @@ import (
 	"html"
 	"io"
 	"io/ioutil"
+	"math"
 	"mime"
 	"net/http"
 	"os"
@@ -1119,7 +1120,7 @@ func ParseByteRange(byteRange []byte, contentLength int) (startPos, endPos int, 
 	}
 
 	if n == 0 {
-		v, err := bytesconv.ParseUint(b[n+1:])
+		v, err := parseBytePos(b[n+1:])
 		if err != nil {
 			return 0, 0, err
 		}
@@ -1147,7 +1148,7 @@ func ParseByteRange(byteRange []byte, contentLength int) (startPos, endPos int, 
 		return startPos, contentLength - 1, nil
 	}
 
-	if endPos, err = bytesconv.ParseUint(b); err != nil {
+	if endPos, err = parseBytePos(b); err != nil {
 		return 0, 0, err
 	}
 	if endPos >= contentLength {
@@ -1157,6 +1158,22 @@ func ParseByteRange(byteRange []byte, contentLength int) (startPos, endPos int, 
 		return 0, 0, fmt.Errorf("the start position of byte range cannot exceed the end position. byte range %q", byteRange)
 	}
 	return startPos, endPos, nil
+}
+
+// parseBytePos parses a last-byte-pos or a suffix-length. One that does not fit
+// an int lies behind the end of any file and is cut down to the file like every
+// other position there (RFC 7233 section 2.1), it is not a syntax error.
+func parseBytePos(b []byte) (int, error) {
+	v, err := bytesconv.ParseUint(b)
+	if err == nil || len(b) == 0 {
+		return v, err
+	}
+	for _, c := range b {
+		if c < '0' || c > '9' {
+			return v, err
+		}
+	}
+	return math.MaxInt, nil
 }
 
 // NewVHostPathRewriter returns path rewriter, which strips slashesCount
